@@ -20,7 +20,7 @@ set_option linter.unnecessarySeqFocus false
 
 namespace C20
 open Generated.C20 C17Num C20Jones
-open Model.C20 (M22)
+open Model.C20 (M22 V2)
 
 /-! ## translated obligations -/
 section gen
@@ -338,6 +338,87 @@ theorem wave_plates (θ : ℝ) :
   · rw [(retarder_compose uq uq c s hcs).1, hq, hh]; congr 1; simp
 
 end mueller
+
+/-! ## Jones vectors and Malus' law with the library's own constructors (Session 3) -/
+
+section vectors
+variable {K : Type} [Field K]
+
+omit [Field K] in
+theorem V2.ext' {u v : V2 K} (hx : u.x = v.x) (hy : u.y = v.y) : u = v := by
+  cases u; cases v; simp_all
+
+/-- translated obligation: `linear_pol_vector` writes `(cos φ, sin φ)` in BOTH the array and the scalar branch, converts degrees by
+`φ·π/180` before taking cos / sin, and degrees are the default unit -/
+theorem gen_linpol (pi φ c s : K) :
+    linPolArray c s = Model.C20.linPol c s ∧ linPolScalar c s = Model.C20.linPol c s ∧
+    linPolAngleFromDegrees pi φ = φ * pi / 180 ∧ linPolDegreesDefault = true := by
+  refine ⟨?_, ?_, ?_, by decide⟩
+  · apply V2.ext' <;> simp [linPolArray, Model.C20.linPol, V2.set, V2.zero]
+  · apply V2.ext' <;> simp [linPolScalar, Model.C20.linPol, V2.set, V2.zero]
+  · simp only [linPolAngleFromDegrees, ofInt_eq]; push_cast; ring
+
+/-- translated obligation: `circular_pol_vector` writes `(1, i)/√2` for 'left' (the default), `(1, -i)/√2` for 'right', and rejects
+any other handedness -/
+theorem gen_circpol (I r2 : K) (left : Bool) :
+    circPol I r2 left = Model.C20.circPol I r2 left ∧ circDefaultLeft = true ∧ circUnknownHandednessRaises = true := by
+  refine ⟨?_, by decide, by decide⟩
+  cases left <;> apply V2.ext' <;> simp [circPol, Model.C20.circPol, V2.set, V2.zero]
+
+/-- the Jones vectors the library builds have unit intensity; the two circular states are orthogonal (`r2 = √2`, `I = i`) -/
+theorem pol_vectors_unit [StarRing K] (c s I r2 : K) (h : c ^ 2 + s ^ 2 = 1) (hc : star c = c) (hs : star s = s)
+    (hI : I ^ 2 = -1) (hIs : star I = -I) (hr : r2 ^ 2 = 2) (hrs : star r2 = r2) (h2 : (2 : K) ≠ 0) :
+    (star (linPolArray c s).x * (linPolArray c s).x + star (linPolArray c s).y * (linPolArray c s).y = 1) ∧
+    (∀ left, star (circPol I r2 left).x * (circPol I r2 left).x + star (circPol I r2 left).y * (circPol I r2 left).y = 1) ∧
+    star (circPol I r2 true).x * (circPol I r2 false).x + star (circPol I r2 true).y * (circPol I r2 false).y = 0 := by
+  have hr0 : r2 ≠ 0 := by intro h0; rw [h0] at hr; simp at hr; exact h2 hr.symm
+  refine ⟨?_, ?_, ?_⟩
+  · rw [(gen_linpol 0 0 c s).1]; simp only [Model.C20.linPol, hc, hs]; linear_combination h
+  · intro left
+    rw [(gen_circpol I r2 left).1]
+    cases left <;> simp only [Model.C20.circPol, ↓reduceIte, Bool.false_eq_true, ofInt_eq, star_div₀, star_neg, hIs, hrs, Int.cast_one, star_one] <;>
+      field_simp <;> linear_combination -hI - hr
+  · rw [(gen_circpol I r2 true).1, (gen_circpol I r2 false).1]
+    simp only [Model.C20.circPol, ↓reduceIte, Bool.false_eq_true, ofInt_eq, star_div₀, star_neg, hIs, hrs, Int.cast_one, star_one]
+    field_simp; linear_combination hI
+
+/-- Malus' law with the library's own constructors: an ideal polariser at `θ` (`c s`) maps light linearly polarised at `φ`
+(`c' s'`, as `linear_pol_vector` builds it) to `(c c' + s s')·(c, s)`, transmitted intensity `(c c' + s s')²` -/
+theorem malus_pol_vector (pi c s c' s' : K) (h : c ^ 2 + s ^ 2 = 1) :
+    let out := (diattenuator (polarizerAlpha pi) c s).mulVec (linPolArray c' s')
+    out = V2.smul (c * c' + s * s') (linPolArray c s) ∧ out.x ^ 2 + out.y ^ 2 = (c * c' + s * s') ^ 2 := by
+  obtain ⟨⟨h1, h2⟩, h3, _⟩ := malus pi c s c' s' h
+  simp only [(gen_linpol 0 0 c' s').1, (gen_linpol 0 0 c s).1, Model.C20.linPol, M22.mulVec, V2.smul] at *
+  refine ⟨?_, h3⟩
+  apply V2.ext' <;> simp only [h1, h2] <;> ring
+
+/-- an ideal polariser transmits half of circularly polarised light, at every orientation and for both handednesses -/
+theorem polarizer_on_circular [StarRing K] (pi c s I r2 : K) (left : Bool) (h : c ^ 2 + s ^ 2 = 1) (hc : star c = c) (hs : star s = s)
+    (hI : I ^ 2 = -1) (hIs : star I = -I) (hr : r2 ^ 2 = 2) (hrs : star r2 = r2) (h2 : (2 : K) ≠ 0) :
+    let out := (diattenuator (polarizerAlpha pi) c s).mulVec (circPol I r2 left)
+    star out.x * out.x + star out.y * out.y = 1 / 2 := by
+  have hr0 : r2 ≠ 0 := by intro h0; rw [h0] at hr; simp at hr; exact h2 hr.symm
+  simp only [(gen_wrappers pi).2.2, diattenuator_form, (gen_circpol I r2 left).1]
+  cases left <;>
+    simp only [Model.C20.circPol, ↓reduceIte, Bool.false_eq_true, M22.mulVec, ofInt_eq, Int.cast_one, star_add, star_mul', star_div₀, star_neg, star_sub, star_pow, star_one,
+      star_zero, hc, hs, hIs, hrs] <;> field_simp <;> ring_nf
+  all_goals linear_combination (-2 * (c ^ 2 * s ^ 2 + s ^ 4)) * hI + 2 * (c ^ 2 + s ^ 2 + 1) * h - hr
+end vectors
+
+/-- Malus' law in its textbook form, with the real cosine: polariser at `θ`, input linearly polarised at `φ` as the library builds
+it: transmitted intensity `cos²(θ - φ)` -/
+theorem malus_cos_sq (θ φ : ℝ) :
+    let out := (diattenuator (polarizerAlpha Real.pi) (Real.cos θ) (Real.sin θ)).mulVec (linPolArray (Real.cos φ) (Real.sin φ))
+    out.x ^ 2 + out.y ^ 2 = Real.cos (θ - φ) ^ 2 := by
+  intro out
+  rw [(malus_pol_vector Real.pi _ _ (Real.cos φ) (Real.sin φ) (Real.cos_sq_add_sin_sq θ)).2, Real.cos_sub]
+
+/-- non-vacuity of the circular-vector hypotheses: `r2 = √2`, `I = i` over `ℂ` -/
+example : (((Real.sqrt 2 : ℝ) : ℂ)) ^ 2 = 2 ∧ star (((Real.sqrt 2 : ℝ) : ℂ)) = ((Real.sqrt 2 : ℝ) : ℂ) ∧
+    Complex.I ^ 2 = -1 ∧ star Complex.I = -Complex.I := by
+  refine ⟨?_, ?_, by simp, by simp⟩
+  · exact_mod_cast Real.sq_sqrt (by norm_num : (0 : ℝ) ≤ 2)
+  · rw [Complex.star_def, Complex.conj_ofReal]
 
 /-! ## non-vacuity -/
 section examples
